@@ -3,15 +3,37 @@ synthesised from a PSD model has exactly the requested RMS.
 
 correspondence:
   (a) model (Lean driver `Drivers/C13.lean`, the definitions of `Model/C13.lean` executed on Float) vs
-      `prysm.interferogram.psd` / `bandlimited_rms` / the RMS rescale of `render_synthetic_surface`,
-      on the same inputs, compared at 1e-9 relative;
-  (b) the property's own predicates on the REAL outputs: Parseval sum, spectral peak of an on-grid
-      cosine on the RETURNED axes, band additivity / inclusion-exclusion / monotonicity / full-band
-      bound, period-vs-frequency band edges, Interferogram methods vs free functions, requested RMS;
-      every band-limited-RMS call runs under BOTH NumPy configurations (installed NumPy 2.x, and a
-      NumPy-1.x namespace proxy swapped into prysm's public backend shim).
+      `prysm.interferogram.psd` / `bandlimited_rms` (2-D and 1-D forms) / the RMS rescale of
+      `render_synthetic_surface`, on the same inputs, compared at 1e-9 relative; the model is handed the window
+      prysm ACTUALLY used (recorded inside the call), so the comparison is about the PSD, not about window values;
+  (b) the property's own predicates on the REAL outputs: Parseval sum with the window that was used, spectral peak
+      of an on-grid cosine on the RETURNED axes, band additivity / inclusion-exclusion / monotonicity / full-band
+      bound / the band value written out independently, band edges as periods, as frequencies, one of each, none
+      (ValueError), window names in any capitalisation, Interferogram methods (incl. aperture -> fill(0) on >= 26
+      samples: the automatic Welch branch through the public API), total integrated scatter for scalar and array
+      angles, requested RMS; every band-limited-RMS call runs under BOTH NumPy configurations (installed NumPy
+      2.x, and a NumPy-1.x namespace proxy); psd() / bandlimited_rms() / render must leave the caller's arrays alone.
 Every case is a small JSON-able dict from which the input is regenerated deterministically, so a failing
 case is its own replay.
+
+Scope decisions (review round):
+  * WINDOW VALUES are not C13 facts: Parseval, the axes and the band clauses hold for every window.  What the
+    quantifier ("window choices: named, automatic, user array") requires: a user array is used as it is; the names
+    'hann' (alias 'hanning') and 'welch' are recognised whatever their capitalisation; where a usable window is due
+    (>= 3 samples per axis) make_window returns an (m, n) finite real array with sum w^2 > 0.  The harness's window
+    oracle (np.hanning outer product, alpha = 4, the 2 % corner rule) is INFORMATIONAL (evidence histogram
+    `window_oracle:*`), never a disagreement.
+  * NaN heights: the quantifier says "real height maps"; a NaN in the map makes every PSD sample NaN (the FFT spreads
+    it) and the property says nothing.  The state of measured data (aperture -> NaN outside) is exercised through the
+    documented preparation mask() -> fill(0) -> psd() / bandlimited_rms() / total_integrated_scatter().
+  * BAND ARGUMENTS of bandlimited_rms: each edge may be given as a period or as a frequency — lower edge = 1/wlhigh
+    or flow (default 0), upper edge = 1/wllow or fhigh (default r.max()); an edge that is given is honoured whatever
+    form the other edge has (fixed in a1d9237: the period branch used to reset the frequency edge); the same edge
+    given both ways is unspecified (the code takes the period; not asserted); no edge at all -> ValueError.
+  * 1-D form (r, psd one-dimensional): one trapezoid integration with the step |r[c] - r[c-1]|, c = n//2; same band
+    mask, same argument handling; 1-sample axis -> 0.
+  * a map with a single row or column: the nested trapezoid integral is 0 (what the code returns); the full-band
+    bound then holds with equality (every sample is an outermost one): theorem full_band_total_measured_all.
 """
 import contextlib
 import itertools
@@ -23,25 +45,36 @@ from harness import common as C
 RULE = ('psd: every shape (m,n) with 1<=m,n<=S (S=8 quick, 12 thorough; all parity pairs, non-square), real '
         'normal height maps regenerated from a per-case seed, dx log-uniform in [1e-3,1e3], windows None (inputs '
         'crafted for both automatic branches: generic data / zero corners on >=26-sample axes / all-zero small '
-        'maps), "hann", "welch" (m>=3), user arrays (ones, random positive); peak: on-grid cosine of every '
-        'admissible integer frequency pair; bands: edges drawn strictly between distinct sample radii, plus an '
-        'edge exactly on a sample radius, as frequencies and as periods, under both NumPy configurations; synth: '
-        'abc_psd / ab_psd parameters x sizes 3..40 x masks (none, random boolean, disc); history: on ONE Interferogram, '
+        'maps), the names hann/hanning/welch in 7+4 capitalisations in rotation (positional and keyword), user arrays '
+        '(ones, random positive); variants (real code): every spelling of every name, welch with alpha in {1,2,2.5,6,8} '
+        'handed over as an array, signed and float32 user windows, float32 / int64 / int32 maps, float32 / int dx; peak: '
+        'on-grid cosine of every admissible integer frequency pair; bands: edges drawn strictly between distinct sample '
+        'radii, plus an edge exactly on a sample radius, as frequencies, as periods, one edge of each kind, positionally, '
+        'and no edge at all, float32 r/psd, under both NumPy configurations; 1-D r/psd of 1..14 (40) samples on |f|, signed '
+        'and one-sided axes; methods: dense maps 3..20 and apertured maps (mask -> fill(0)) of 26..48 samples, float32/int32 '
+        'data, band as frequencies / periods / one of each / none, TIS for scalar, 0-d, 1-D, 2-D and default angles; synth: '
+        'abc_psd / ab_psd / a user psd_fcn x sizes 3..40 x masks (none, disc, random boolean, 0-1 int, 0.-1. float, single '
+        'valid sample, all ones) x rms (log-uniform, integer, 0), keyword and positional; history: on ONE Interferogram, '
         'psd / bandlimited_rms / total_integrated_scatter interleaved with in-place mutators (remove_piston/tiptilt/power, '
         'fill, mask, spike_clip, data *= k, data[0,0] += c) and rebinding ones (crop, pad, filter, data = ..., latcal, '
         'strip_latcal): all query-mutator-query triples (thorough: two mutators) + random interleavings to length 14, each '
         'query compared with the same call on a fresh object built from a copy of the current data. A case is non-trivial '
-        'unless the map is 1x1 or all zero; distinct = distinct case dicts')
+        'unless the map is 1x1, all zero, or no usable window is due; distinct = distinct case dicts')
 ASSUMPTIONS = [
     'scipy.fft.fft2 computes the DFT sum; fftshift/ifftshift/fftfreq are the index maps of Model.C13 (the maps '
     'are compared exhaustively as integers against scipy on every run)',
     'np.trapezoid / np.trapz(y, dx=d, axis=0) = sum d*(y[1:]+y[:-1])/2 (modelled; compared on every case)',
     'the NumPy 1.x half of the configuration quantifier is exercised through a namespace proxy (has trapz, no '
-    'trapezoid, forwards everything else) swapped into prysm.mathops.np._srcmodule; a real NumPy 1.x is not installed',
+    'trapezoid, forwards everything else) swapped into prysm.mathops.np._srcmodule (or, if the shim has no such slot, '
+    'into the module global prysm.interferogram.np); a real NumPy 1.x is not installed',
     'float comparison tolerance 1e-9 relative to the largest magnitude of the compared array (inputs are O(1) '
-    'normal data on <=40x40 grids: DFT rounding ~1e-14); RMS of a rescaled surface at 1e-12 relative',
+    'normal data on <=48x48 grids: DFT rounding ~1e-14), 1e3 eps of the narrowest floating type involved when a float32 '
+    'map / window / dx / r / psd is handed over (1.2e-4); RMS of a rescaled surface at max(1e-12, 64 eps) relative',
     'np.random.rand (through the backend shim) supplies the random phases of synthesize_surface_from_psd; the RMS '
-    'claim is exact for every draw, the statistical claim (the surface HAS the requested PSD) is not covered',
+    'claim is exact for every draw, the statistical claim (the surface HAS the requested PSD) is not covered; the model '
+    'comparison of the rescale uses the unscaled surface recorded inside the same call, not a second draw',
+    'window VALUES (Hann / Welch formulas, alpha, the 2 % corner heuristic of the automatic choice) are outside the property: '
+    'the predicates use the window make_window returned inside the call; an independent oracle is informational only',
 ]
 TOL = 1e-9
 CONFIGS = ('numpy2', 'numpy1')
@@ -1365,8 +1398,13 @@ def _correspondence(ctx):
         if case.get('prep') == 'aperture':
             try:
                 ctx.hist[f'methods:aperture:auto->{"welch" if _auto_is_welch(np.asarray(_method_object(case).data)) else "hann"} (oracle)'] += 1
-            except Exception:
-                pass
+                # INFORMATIONAL (outside the quantifier "real height maps"): what psd() does with the NaN of an unfilled aperture
+                raw = itf.Interferogram(_height(case).copy(), dx=_dx(case))
+                raw.mask(_disc(m, n))
+                pn = np.asarray(raw.psd().data)
+                ctx.hist['methods:NaN heights -> psd ' + ('all NaN' if not np.isfinite(pn).any() else 'partly finite') + ' (informational)'] += 1
+            except Exception as ex:
+                ctx.hist[f'methods:NaN heights -> psd raised {type(ex).__name__} (informational)'] += 1
 
     # ---------------- synthetic surfaces: requested RMS, mask pattern, and the rescale against the model
     for case in _synth_cases(ctx):
@@ -1617,32 +1655,49 @@ def replay(inp):
 
 
 MANIFEST_ENTRY = {
-    'technique': 'Lean 4 proof (finite Fourier analysis / Parseval over C, trapezoid-weight algebra over R, omega over '
-                 'translator-generated index glue) + differential testing of the executable model against prysm under '
-                 'two NumPy configurations',
-    'text': ('Machine-checked, for every shape, spacing and window with sum(w^2) != 0 (no bound): Parseval for any transform '
-             'with orthogonal columns, orthogonality of the 2-D DFT kernel exp(-2 pi i(ki/m+lj/n)) for all m,n, hence '
-             'sum(PSD)*dfx*dfy = sum((h w)^2)/sum(w^2) for PSD=|F|^2/(S2 fs^2) — proved both abstractly (any permutation '
-             'of spectrum and samples) and for the executable model Model.C13.psd itself read over R with the real cos/sin; '
-             'a pre-FFT rotation changes no modulus; the displayed sample i has frequency (i-n//2)/(n dx) iff the post-FFT '
-             'rotation is fftshift (ifftshift: iff n even or n=1; negative witness n=7 by decide) — stated over the rotation '
-             'kind TRANSLATED from the current source of psd(); trapezoid = weighted sum (1/2 at the ends), linear, monotone; '
-             'band-limited mean square is monotone under widening, satisfies the inclusion-exclusion identity for closed '
-             'bands and is additive when the common edge is not a sample radius; full band: 0 <= rectangle - trapezoid <= '
-             'weight of the outermost rows/columns, and |sum((hw)^2)/sum(w^2) - brms^2_full| <= that weight for the model PSD '
-             'with the per-axis steps 1/(m dx), 1/(n dx); rms(z*rho/rms z) = rho over any non-empty valid set. TRANSLATED '
-             'from the source on every run and proved equal to the model: rotation kinds, coef = S2*fs*fs, which shape entry '
-             'feeds which axis, for each integration of bandlimited_rms the axis its step was measured along, the band-mask '
-             'comparators, the trapezoid/trapz lookup, the RMS rescale expression, method delegation. Compared on every run: '
-             'model vs prysm psd (all shapes <= 8x8 / 12x12, five window kinds, both automatic branches), bandlimited_rms '
-             '(both NumPy configurations), rescale; property predicates on the real outputs incl. spectral peak location '
-             'of on-grid cosines on the returned axes; histories on ONE Interferogram (psd / bandlimited_rms / total_integrated_scatter '
-             'interleaved with in-place and rebinding mutators): every query equals the same call on a fresh object built from '
-             'a copy of the current data; structural fact (translated): these three methods read only data, dx, wavelength and '
-             'store nothing on the object.'),
+    'technique': 'Lean 4 proof (finite Fourier analysis / Parseval over C, trapezoid-weight algebra over R, field identities and omega '
+                 'over translator-generated glue obtained by last-definition dataflow) + differential testing of the executable model '
+                 'against prysm under two NumPy configurations',
+    'text': ('PROVED for all inputs (no size bound): orthogonality of the 2-D DFT kernel for all m,n and Parseval from it; for the '
+             'EXECUTED model Model.C13.psdRot read over R with the real cos/sin: sum(PSD)*dfx*dfy = sum((h w)^2)/sum(w^2) for every '
+             'shape, dx != 0, window with sum(w^2) != 0 and every pair of rotation kinds; a rotation of the data before the transform '
+             'changes NO sample of the model PSD (pre_rotation_irrelevant_model, pointwise; cdft(x.rot) = unit phase * cdft(x)); the '
+             'displayed sample i has frequency (i-n//2)/(n dx) iff the post-FFT rotation is fftshift (ifftshift: iff n even or n=1; '
+             'witness n=7 by decide); trapezoid = weighted sum (1/2 at the ends), linear, monotone; band-limited mean square (2-D and '
+             '1-D forms) is monotone under widening, satisfies inclusion-exclusion for closed bands and is additive WHEN THE COMMON EDGE '
+             'IS NOT A SAMPLE RADIUS (with closed bands the unrestricted sentence of the property is false on an edge sample: '
+             'band_additive_general is the exact statement); these are also stated for P := the model PSD with the per-axis steps '
+             '(band_monotone_psd, band_additive_psd); full band: |sum((hw)^2)/sum(w^2) - brms^2_full| <= weight of the outermost rows/'
+             'columns for the model PSD with the steps measured from r as the code measures them, for EVERY shape m,n >= 1 (1xN / Nx1: '
+             'the code returns 0 and the bound is an equality); rms(z*rho/rms z) = rho over any non-empty valid set. '
+             'TRANSLATED from the source on every run (psd(): last-definition dataflow — rebinding, /=, reordering, renaming are '
+             'followed) and proved: the returned power as a function of |spectrum|^2, sum(w^2), dx equals P/(S2 fs^2) (field identity); '
+             'the S2 window is the window that multiplied the data and is make_window(height, dx, window); rotation kinds; which shape '
+             'entry / broadcast output feeds which axis; fttools.forward_ft_unit = fftshift(fftfreq(n, dx)) = the hand axis; hence '
+             '(psd_on_returned_axes) displayed frequency = returned axis value with BOTH sides translated; bridge psd_source_eq_model: '
+             'psdRot with the translated rotations = Model.C13.psd, the function the driver runs; Parseval over the translated glue '
+             '(psd_parseval_source); for each integration of bandlimited_rms the axis its step was measured along and the lag -1 (2-D '
+             'and 1-D), centre s//2, band-mask comparators, trapezoid/trapz lookup, sqrt of the integral of a COPY; the band table of '
+             'the argument handling (periods, frequencies, one-sided, one edge of each kind; no edge -> ValueError) and '
+             'band_table_periods_are_frequencies / band_periods_same_rms (periods (wllow, wlhigh) give brmsSq on [1/wlhigh, 1/wllow]); '
+             'the RMS rescale expression; method delegation (arguments bound by name or position), RichData.r = hypot(x, y), TIS angle '
+             'through array functions, util.rms = sqrt(mean of finite squares), mask-before-rms-before-scale; statelessness of the '
+             'three spectral methods.  Structural facts are three-valued: recognised-and-wrong fails the theorem, unrecognised '
+             'degrades the tie (TIE-DEGRADED line) and widens the sweep. '
+             'COMPARED on every run: model vs prysm psd with the window prysm actually used (all shapes <= 8x8 / 12x12), '
+             'bandlimited_rms 2-D and 1-D (both NumPy configurations), rescale; property predicates on the real outputs incl. '
+             'spectral peak location of on-grid cosines on the returned axes, window names in every capitalisation, alpha, dtypes, '
+             'band edges in every form, aperture -> fill(0) through the methods on >= 26 samples, TIS for array angles, purity of '
+             'psd/bandlimited_rms/render, histories on ONE Interferogram.'),
     'note': ('Partial in these respects: theorems are over R/C, not floats; scipy.fft.fft2 = DFT sum, fftshift/ifftshift/'
              'fftfreq index maps and np.trapezoid are trusted primitives (the index maps are compared exhaustively each run); '
-             'the window functions themselves (hann/welch values, the 2% corner heuristic) are only compared against an '
-             'independent Python oracle; NumPy 1.x is simulated by a namespace proxy; the statistical claim that a synthesised '
-             'surface has the requested PSD is not covered; total_integrated_scatter is only checked to delegate.'),
+             'window VALUES (hann/welch formulas, alpha, the 2% corner heuristic) are deliberately outside the property — only that '
+             'a usable (m,n) window comes back, that a user array is used as it is and that names are case-insensitive is checked; '
+             'the clause "additive over adjacent bands" is proved with the side condition that the common edge is not a sample radius '
+             '(the sentence should be amended, the code uses closed bands); the same band edge given both as a period and as a '
+             'frequency is unspecified (not asserted); NaN height maps are outside the quantifier; make_window / window_2d_welch / '
+             'synthesize_surface_from_psd are harness-only (no translated item); rgrid (r = hypot(fx, fy)) is a hand definition tied '
+             'to the source by the fact richDataRIsHypotOfXY; NumPy 1.x is simulated by a namespace proxy; config.precision = 32 is '
+             'not exercised (tolerances are dtype-aware); the statistical claim that a synthesised surface has the requested PSD '
+             'is not covered; translator ITEMS fall back to the hand model when the source shape is unknown (reported as TIE-DEGRADED).'),
 }
